@@ -85,7 +85,11 @@ def lyErrJson : Err → Json
 /-- op `layers.dict_union`: {dicts:[dict…]} ↦ {v: dict_union(*dicts)} -/
 def lyOpDictUnion (c : Json) : R Json := do
   let ds ← lyDictList c "dicts"
-  return Json.mkObj [("v", lyJOut (.dict (unionN ds)))]
+  -- two dicts (the only arity the anchored code uses) go through the binary `unionD` the theorems are about
+  let u := match ds with
+    | [a, b] => unionD a b
+    | _ => unionN ds
+  return Json.mkObj [("v", lyJOut (.dict u))]
 
 /-- op `layers.set_default`: {cls, inst: kw|null, values:[V…]} — a fresh `DataclassWrapper(cls, default=inst)`,
     then `set_default(v)` for each value ↦ {o:"ok", slots, defaults} | raise -/
